@@ -161,7 +161,8 @@ class Run:
             if verdict in ("ok", "bad"):
                 proj = getattr(self.mod, "corr_view", None)
                 io = proj(c, o) if proj else o
-                corr = sx.norm(io) == sx.norm(model)
+                ce = getattr(self.mod, "corr_equal", None)
+                corr = ce(c, io, model) if ce else sx.norm(io) == sx.norm(model)
             out.append(dict(case=c, obs=o, verdict=verdict, model=model, detail=detail, corr=corr))
         return out
 
